@@ -38,6 +38,9 @@ CHECKS = {
     "C10": dict(text="one Short/Long item is constrained to be the help (version) flag, everything else symbolic; Z3 shows the class is Stdout and the (cut) help renderer receives the path/Info of the innermost entered subcommand",
                 note="bounds 1..3 argv words quick / ..4 thorough, 14 grammars; the ambiguity exception of run_inner is outside the token layer; one known finding (see known_findings.json)",
                 tech=MIRSYM + ", outcome-class obligations", ref="DESIGN.md 4/C10"),
+    "C11": dict(text="in-process clause only: OptionParser::run executed from MIR with current_args / process::exit / print macros as recording models: the program body is reached iff the run yields a value (and nothing is printed), otherwise exactly one print to stdout with status 0 (help/version/completion) or to stderr with status 1 (failure); ParseFailure::exit_code on all variants. One concrete argv per path is additionally pushed through a REAL process running run() (supporting evidence)",
+                note="the clause 'a real process behaves like run_inner for every OS argv (non-UTF-8 through execve, argv[0] -> name)' is outside symbolic execution and is NOT claimed; message non-emptiness is not decided (rendering cut); bounds <=3 argv words quick / <=4 thorough, 4 grammars",
+                tech=MIRSYM + ", effect-recording models", ref="DESIGN.md 4/C11"),
     "C15": dict(text="the single-quote wrapper `Shell` executed from MIR (core::fmt interpreted) on every valid UTF-8 string up to the bound: the output lexes under POSIX rules as exactly one word with the input as value; render_zsh/bash/fish/simple executed from MIR on candidate and completer lists whose user-originated strings are tracked atoms: no atom reaches a zsh/bash script unquoted, every line is a complete directive, every candidate / requested completer appears exactly once",
                 note="bounds: strings <=6 bytes quick / <=8 thorough; 0-2 candidates, 0-1 (thorough 0-2) completers; reference lexers in props/C15.py; sourcing in a real shell not attempted; three defects found and fixed (7d9d288, 7f18a65, 640d5de)",
                 tech=MIRSYM + " over symbolic bytes / tracked atoms", ref="DESIGN.md 4/C15"),
